@@ -447,7 +447,7 @@ fn series(rng: &mut Rng, len: usize, integral: bool) -> (Vec<f64>, &'static str)
     let mut cur = rng.range(-8, 8);
     let c = rng.range(-4, 4);
     let den = if integral { 1.0 } else { 4.0 };
-    let xs = (0..len).map(|i| if m[i] { f64::NAN } else {
+    let xs = (0..len).map(|i| if m[i] { if i % 2 == 0 { f64::NAN } else { -f64::NAN } } else {
         (match style {
             0 => rng.range(-40, 40),
             1 => { cur += rng.range(0, 3); cur }
@@ -475,7 +475,7 @@ fn all_series(alpha: &[f64], len: usize) -> Vec<Vec<f64>> {
 /// in order) and `true` at the inserted nulls
 fn insert_nulls(xs: &[f64], mask: &[bool]) -> Vec<f64> {
     let mut it = xs.iter();
-    mask.iter().map(|b| if *b { f64::NAN } else { *it.next().unwrap() }).collect()
+    mask.iter().enumerate().map(|(i, b)| if *b { if i % 2 == 0 { f64::NAN } else { -f64::NAN } } else { *it.next().unwrap() }).collect()
 }
 fn mask_str(mask: &[bool]) -> String {
     mask.iter().map(|b| if *b { 'N' } else { '.' }).collect()
